@@ -267,6 +267,7 @@ func c02Run(s *Shard) {
 		order[i] = corpus[j]
 	}
 	for _, r := range order {
+		s.Begin(&Case{Prop: "C02", Kind: "map-order", Req: r.Req, Params: M{"menu": []int{}, "name": r.Name, "phase": "baseline"}})
 		v, b, _ := decideControlled(J(r.Req), 1, -1, 0)
 		if v == "accepted" {
 			bl[r.Name] = bodyHash(b)
